@@ -380,9 +380,12 @@ def singularityCheck(
     if inclined and eccentric:
         return wrapAngle2Pi(raan), wrapAngle2Pi(argp), wrapAngle2Pi(anomaly)
 
+    # [NOTE]: an equatorial orbit with inc ~ pi runs clockwise about +z: its node angle counts backwards
+    node_sign = -1.0 if inc > 0.5 * PI else 1.0
+
     if not inclined and eccentric:
         # RAAN, Ω, is undefined
-        true_long_rp = wrapAngle2Pi(raan + argp)
+        true_long_rp = wrapAngle2Pi(argp + node_sign * raan)
         return 0.0, true_long_rp, wrapAngle2Pi(anomaly)
 
     if inclined and not eccentric:
@@ -392,7 +395,7 @@ def singularityCheck(
 
     # else; Circular and Equatorial
     # RAAN, Ω, and Arg. Perigee, ω, are undefined
-    true_long = wrapAngle2Pi(anomaly + argp + raan)
+    true_long = wrapAngle2Pi(anomaly + argp + node_sign * raan)
     return 0.0, 0.0, true_long
 
 
